@@ -194,6 +194,13 @@ class Obs(object):
 
     def call(self, epname, kind, fn, data, expect):
         """expect: 'raise' (entity declared), 'raise-or-none' (malformed), 'any' (no entity declared)"""
+        out = self._call(epname, kind, fn, data, expect)
+        if expect in ("raise", "raise-or-none"):
+            # the same document again, immediately: a refusal must not have left anything behind that answers for it
+            self._call(epname, kind + "/again", fn, data, expect)
+        return out
+
+    def _call(self, epname, kind, fn, data, expect):
         scratch = self.ctx.scratch
         self.ctx.mark()
         with parsermon.watch() as w:
@@ -209,7 +216,7 @@ class Obs(object):
         for p in inpkg:
             self.reached.add(p["site"])
         if inpkg:
-            self.sigs.append([epname, kind.split("@")[0]])
+            self.sigs.append([epname, kind.split("@")[0].replace("/again", "")])
             self.hit("parser_constructions_in_package", len(inpkg))
         ctxs = "%s <- %s" % (epname, kind)
         # (1) no resource access caused by document content
